@@ -142,3 +142,104 @@ class SharedRules:
 
     def __getattr__(self, name):
         return getattr(self._rep, name)
+
+
+def rebuild_rule(an: Analysis, rep, rule: str, entries, doc=None):
+    """A data-class value rebuilt field by field from another value of the same class passes every field on.
+
+    `D(a=x.a, b=x.b, c=<new>)` where D is a data class and x supplies two or more of D's fields under their own names is a copy with
+    changes; a field of D that the call omits is silently reset to its default in the copy.  (dataclasses.replace cannot omit.)"""
+    rep.rule(rule, doc or "a value rebuilt field by field from another value of the same class keeps every field", 0)
+    n = 0
+    seen = set()
+    for entry in entries:
+        for f in an.closure(entry):
+            if f.qual in seen:
+                continue
+            seen.add(f.qual)
+            for c in ast.walk(f.node):
+                if not (isinstance(c, ast.Call) and isinstance(c.func, ast.Name)):
+                    continue
+                r = an.prog.resolve_global(f.module, c.func.id, f)
+                if not r or r[0] != "class":
+                    continue
+                ci = r[1]
+                if not ci.is_dataclass or any(isinstance(a, ast.Starred) for a in c.args) or any(k.arg is None for k in c.keywords):
+                    continue
+                init_fields = [fl for fl in ci.fields if fl.flags.get("init", True) is not False]
+                given = {}
+                for fl, a in zip(init_fields, c.args):
+                    given[fl.name] = a
+                for k in c.keywords:
+                    given[k.arg] = k.value
+                bases: Dict[str, List[str]] = {}
+                for name, v in given.items():
+                    if isinstance(v, ast.Attribute) and v.attr == name:
+                        b = attr_chain(v.value)
+                        if b:
+                            bases.setdefault(b, []).append(name)
+                src = [(b, fs) for b, fs in bases.items() if len(fs) >= 2]
+                if not src:
+                    continue
+                n += 1
+                b, fs = max(src, key=lambda x: len(x[1]))
+                omitted = [fl.name for fl in init_fields if fl.name not in given]
+                rep.add(rule, f"{f.qual}::{ci.name}(...) rebuilt from {b}", not omitted, loc(f.module, c),
+                        f"every field of {ci.name} is passed on" if not omitted else
+                        f"`{norm_src(c)[:90]}` copies {sorted(fs)} from `{b}` but omits {omitted}: the rebuilt {ci.name} has the default there, whatever `{b}` carried")
+    rep.add(rule, "field-by-field rebuilds examined", True, "code_data/", f"{n} rebuild call(s) in the closures of {list(entries)}", nontrivial=False)
+
+
+_VALUE_LEAVES = {"int", "str", "float", "bytes", "complex", "bool"}
+
+
+def identity_rule(an: Analysis, rep, rule: str, entries):
+    """`is` / `is not` compares with a singleton, or compares objects - never numbers or strings.
+
+    Identity of ints / strs coincides with equality only for the values the interpreter happens to cache (small ints, interned
+    strings); a test that means equality but is spelled `is` works on small programs and fails beyond line 256 / for long names."""
+    rep.rule(rule, "identity tests (`is`, `is not`) have a singleton operand or compare objects, never numbers / strings", 1)
+    n = n_single = 0
+    seen = set()
+    for entry in entries:
+        it, _ = an.interp(entry)
+        for f in an.closure(entry):
+            if (entry, f.qual) in seen:
+                continue
+            seen.add((entry, f.qual))
+            for c in ast.walk(f.node):
+                if not isinstance(c, ast.Compare):
+                    continue
+                operands = [c.left] + list(c.comparators)
+                for i, op in enumerate(c.ops):
+                    if not isinstance(op, (ast.Is, ast.IsNot)):
+                        continue
+                    n += 1
+                    l, r = operands[i], operands[i + 1]
+                    if any(isinstance(x, ast.Constant) and (x.value is None or x.value is True or x.value is False or x.value is Ellipsis) for x in (l, r)):
+                        n_single += 1
+                        continue
+                    ev = []
+                    for x in (l, r):
+                        if isinstance(x, ast.Constant):
+                            ev.append(f"`{norm_src(x)}` is a literal {type(x.value).__name__}")
+                            continue
+                        try:
+                            v = it.value_at(x)
+                        except Exception:
+                            v = frozenset()
+                        for a in v:
+                            if a[0] == "const" and type(a[1]).__name__ in _VALUE_LEAVES and not isinstance(a[1], bool):
+                                ev.append(f"`{norm_src(x)}` may be the {type(a[1]).__name__} {a[1]!r}")
+                            elif a[0] == "src":
+                                t = it.src_type(a)
+                                leaves = {y[1] for y in an.tg.leaves_in(an.tg.unfold_rec(t)) if y[0] == "leaf"} & (_VALUE_LEAVES - {"bool"})
+                                if leaves:
+                                    ev.append(f"`{norm_src(x)}` holds a value declared {an.tg.show(t)}")
+                            elif a[0] == "der":
+                                ev.append(f"`{norm_src(x)}` is a computed value")
+                    if ev:
+                        rep.add(rule, f"{f.qual}::{norm_src(c)}", False, loc(f.module, c),
+                                f"identity test between values: {ev[0]}; `is` agrees with `==` only for objects the interpreter caches (ints in -5..256, interned "
+                                f"strings), so the test is wrong for e.g. a line number above 256")
+    rep.add(rule, "identity tests examined", True, "code_data/", f"{n} identity test(s) in the closures of {list(entries)}, {n_single} against None / True / False / Ellipsis", nontrivial=False)
